@@ -9,6 +9,7 @@ import (
 	"fmt"
 	"os"
 	"runtime"
+	"sync"
 	"testing"
 	"time"
 
@@ -103,6 +104,28 @@ func runCase(c *props.Case) (result string) {
 			x, _ := env.Get("x")
 			y, _ := env.Get("y")
 			result = fmt.Sprintf("%d %v x=%q y=%q", n, err, x.Value, y.Value)
+		case "parse2":
+			// two independent callers on two goroutines; each must get what it gets alone
+			var res [2]string
+			var wg sync.WaitGroup
+			for i, src := range []string{c.Src, c.Src2} {
+				wg.Add(1)
+				go func(i int, src string) {
+					defer wg.Done()
+					defer func() {
+						if e := recover(); e != nil {
+							res[i] = fmt.Sprint("panic: ", e)
+						}
+					}()
+					res[i] = props.SoloDump(src)
+				}(i, src)
+			}
+			wg.Wait()
+			result = res[0] + "\n=====\n" + res[1]
+			if solo := props.SoloDump(c.Src) + "\n=====\n" + props.SoloDump(c.Src2); solo != result {
+				result = "CONCURRENT-DIFFERS-FROM-SOLO " + result
+				fmt.Fprintf(os.Stderr, "DIFF -1 concurrent callers interfere: %q\n", clip(result))
+			}
 		case "expand":
 			env := interp.NewExecEnv("sim")
 			for _, kv := range c.Vars {
